@@ -14,6 +14,10 @@ import z3
 from . import ir
 
 
+import os
+FRESH_SOLVER = bool(os.environ.get('LLSYM_FRESH'))
+
+
 class Unsupported(Exception):
     """Something the engine cannot encode: the run is inconclusive, never 'holds'."""
 
@@ -181,12 +185,20 @@ class Exec:
     # ---- solver -------------------------------------------------------------------------
     def check(self, *extra):
         t0 = time.time()
-        if extra:
-            self.solver.push()
-            self.solver.add(*extra)
-        r = self.solver.check()
-        if extra:
-            self.solver.pop()
+        if FRESH_SOLVER:
+            s = z3.SolverFor('QF_BV')
+            s.set('timeout', 20000)
+            s.add(*self.pc)
+            if extra:
+                s.add(*extra)
+            r = s.check()
+        else:
+            if extra:
+                self.solver.push()
+                self.solver.add(*extra)
+            r = self.solver.check()
+            if extra:
+                self.solver.pop()
         self.stats.solver_s += time.time() - t0
         self.stats.queries += 1
         if r == z3.sat:
